@@ -429,3 +429,9 @@ def routing_reports_connected_only_when_started(r):
     run(r.disconnect())
     rest = ghost("T")[n:]
     assert "transport_stop" in rest and states(rest) == [S.DISCONNECTED] and sends(rest) == []
+
+
+ASSUMPTIONS = [
+    "asyncio is trusted behind the contract stubs: a cancelled task/future does not continue, asyncio.timeout cancels what it guards, locks are mutually exclusive, queues are FIFO, tasks switch only at awaits; interleavings inside one await are represented by 'the awaited object completes with any admissible value, times out, or the connection closes'",
+    "Disconnect/Connect request objects answer, or raise RequestResponseError (RequestResponse.request's documented contract)",
+]
